@@ -206,8 +206,16 @@ func (v *PacketDslVisitorImpl) VisitPacketDefinition(ctx *gen.PacketDefinitionCo
 				TragetField: target,
 			}
 		case *model.MatchFieldAttribute:
-			c.MatchKeyField = fieldMap[c.MatchKeyField.Name]
-
+			if key, ok := fieldMap[c.MatchKeyField.Name]; ok {
+				c.MatchKeyField = key
+			} else {
+				v.BinModel.AddSyntaxError(&model.SyntaxError{
+					Line:            declared[f].GetStart().GetLine(),
+					Column:          declared[f].GetStart().GetTokenSource().GetCharPositionInLine(),
+					Msg:             "Unknown match key field " + c.MatchKeyField.Name + " for field " + f.Name,
+					OffendingSymbol: nil,
+				})
+			}
 		}
 	}
 
@@ -408,6 +416,8 @@ func (v *PacketDslVisitorImpl) VisitInerObjectField(ctx *gen.InerObjectFieldCont
 	decl := ctx.InerObjectDeclaration()
 	name := decl.IDENTIFIER().GetText()
 	var subFields []*model.Field
+	var declared = make(map[*model.Field]gen.IFieldDefinitionContext)
+	var names = make(map[string]bool)
 	// Iterate all sub-field definitions inside the nested object
 	for _, fctx := range decl.AllFieldDefinition() {
 		fld := v.VisitFieldDefinition(fctx)
@@ -416,6 +426,19 @@ func (v *PacketDslVisitorImpl) VisitInerObjectField(ctx *gen.InerObjectFieldCont
 		}
 		f := fld.(*model.Field)
 		subFields = append(subFields, f)
+		declared[f] = fctx
+		names[f.Name] = true
+	}
+	// a match field selects on a field of the same object
+	for _, f := range subFields {
+		if mf, ok := f.Attr.(*model.MatchFieldAttribute); ok && !names[mf.MatchKeyField.Name] {
+			v.BinModel.AddSyntaxError(&model.SyntaxError{
+				Line:            declared[f].GetStart().GetLine(),
+				Column:          declared[f].GetStart().GetTokenSource().GetCharPositionInLine(),
+				Msg:             "Unknown match key field " + mf.MatchKeyField.Name + " for field " + f.Name,
+				OffendingSymbol: nil,
+			})
+		}
 	}
 	// Construct nested Packet model
 	p := model.Packet{
